@@ -730,6 +730,19 @@ func c04RunEdge(R *vkit.Report, e c04Edge, c c04Case) {
 		return
 	}
 	if problem != "" && strings.HasPrefix(e.Group, "valuelen<") {
+		// ... but only the padding is tolerated: the value followed by zero bytes, nothing else (e.g. not the tail
+		// of whatever was written before it)
+		padded := make([]c04KV, len(kvs))
+		for i, kv := range kvs {
+			v := make([]byte, e.Shape)
+			copy(v, kv.V)
+			padded[i] = c04KV{kv.K, v}
+		}
+		if p2, _, pn2 := c04Verify(built.Data, padded, false, nil); pn2 != nil || p2 != "" {
+			R.Outcome("edge:" + e.Group + ":wrong-lookup")
+			c04Viol(R, "wrong-lookup", e.Group, fmt.Sprintf("contract edge %q (%d inserts, %s, declared %d): a value shorter than the value size was accepted, and Lookup returns neither it nor its zero-padded form: %s", e.Name, len(kvs), c04ShapeDesc(e.Shape), e.Declared, p2), c)
+			return
+		}
 		// The statement quantifies over FIXED-SIZE values. A SHORTER value is zero-padded (the repository's own
 		// tests rely on that: they store 7-byte CIDs in a 36-byte index): recorded as an observation. A LONGER value
 		// would be cut - an unsupported value size that must end in an error (judged below like every other edge).
